@@ -65,6 +65,16 @@ def table_store(chk: Check, repo: Repo) -> None:
     heads = [n.id for n in scfg.nodes if n.kind == "for"]
     ok_r = bool(touch) and bool(parsed) and bool(heads) and all(scfg.all_paths_hit(p_, touch, heads + [scfg.exit], edge_ok=scfg.normal_only, include_start=False) for p_ in parsed)
     chk.ob("reconfigured-address-keeps-no-stale-type", sf.site(), ok_r, "set(): past the transcoder lookup every path of an iteration stores or removes the address's entry" if ok_r else "set(): an address re-assigned to a type without a transcoder keeps its previous decoder - telegrams to it still carry the old type's value", key="table|no-stale")
+    # "telegrams to it carry the value" - every telegram the consumer takes out of the queue, incoming or outgoing: the
+    # eager decode precedes the direction dispatch (a decode inside the incoming branch leaves the telegrams this process
+    # sends without a decoded value)
+    tc = repo.func("xknx.core.telegram_queue", "TelegramQueue._telegram_consumer")
+    chk.unit(tc)
+    tcfg = CFG(tc.node)
+    dec = [n.id for n in tcfg.nodes if n.ast is not None and n.kind == "stmt" and any(call_name(c).endswith("set_decoded_data") for c in calls(n.ast))]
+    uses = [n.id for n in tcfg.nodes if n.ast is not None and n.kind == "stmt" and any(call_name(c) in ("self.process_telegram_incoming", "self.process_telegram_outgoing", "self.outgoing_queue.put_nowait") and c.args and not (isinstance(c.args[0], ast.Constant) and c.args[0].value is None) for c in calls(n.ast))]
+    ok_d = bool(dec) and len(uses) >= 2 and all(any(tcfg.dominates(d_, u_) for d_ in dec) for u_ in uses)
+    chk.ob("every-dequeued-telegram-is-decoded", tc.site(), ok_d, f"_telegram_consumer: set_decoded_data precedes the processing of incoming and the hand-over of outgoing telegrams ({len(uses)} uses)" if ok_d else "_telegram_consumer decodes on some paths only: telegrams of the other direction carry no decoded value", key="consumer|decode-dominates")
     g = repo.func(GD, "GroupAddressDPT.get")
     chk.unit(g)
     rets = [n for n in walk_local(g.node) if isinstance(n, ast.Return)]
